@@ -79,23 +79,46 @@ def _gram(ctx, rows):
 
 
 def _shard(args):
+    """Worker process: execute a shard of cases against the real pfst, have TLC judge the recorded events, and return
+    only the verdict summary (events that failed a clause, counts) - batches never travel back to the parent."""
     shard_id, cases = args
     from harness import c09_drv as drv
     from harness.proj import Tables
     tab = Tables()
-    by, meta = {}, {}
-    for c in cases:
+    by = {}
+    done = []
+    for i, c in enumerate(cases):
         ev = drv.put_event(tab, *c)
         if ev is None:
             continue
+        done.append(i)
         by.setdefault(ev['slot'], []).append(ev)
-    traces = []
+    traces, meta = [], {}
     for n, (slot, evs) in enumerate(sorted(by.items())):
         tid = shard_id * 1000 + n + 1
         traces.append({'id': tid, 'steps': [{k: e[k] for k in TLC_FIELDS} for e in evs]})
-        meta[tid] = [{k: e[k] for k in ('slot', 'child', 'tlay', 'clay', 'form', 'api', 'src', 'code', 'post', 'exc',
-                                        'outcome', 'cls')} for e in evs]
-    return dict(tab.dump(), traces=traces), meta
+        meta[tid] = evs
+    res = {'nev': sum(len(t['steps']) for t in traces), 'ntr': len(traces), 'bad': [], 'seen': {}, 'sample': None,
+           'err': None, 'st': {}, 'shard': shard_id, 'done': done}
+    if not traces:
+        return res
+    try:
+        verd, st = tlc.run_traces(dict(tab.dump(), traces=traces), module='PrecTrace', heap='3g')
+    except tlc.TLCError as e:
+        res['err'] = str(e)
+        return res
+    finally:
+        tlc.cleanup()
+    res['st'] = st
+    keys = ('slot', 'child', 'tlay', 'clay', 'form', 'api', 'src', 'code', 'post', 'exc', 'outcome', 'cls')
+    for tid, v in verd.items():
+        for c in v['seen']:
+            res['seen'][c] = res['seen'].get(c, 0) + 1
+        for step, clause, klass in sorted(v['bad']):
+            res['bad'].append((clause, klass, {k: meta[tid][step - 1][k] for k in keys}))
+    e = meta[traces[0]['id']][0]
+    res['sample'] = {k: e[k] for k in ('slot', 'child', 'tlay', 'clay', 'form', 'api', 'src', 'code', 'post')}
+    return res
 
 
 def _cases(ctx, rows):
@@ -119,37 +142,41 @@ def _cases(ctx, rows):
     return sorted(set(cases))
 
 
-def _run_puts(ctx, cases, nproc=14, njvm=6):
-    nsh = max(1, min(8 if ctx.quick else 3 * nproc, len(cases) // 200 or 1))
-    shards = [(k, cases[k::nsh]) for k in range(nsh)]
-    out = []
-    with mp.get_context('spawn').Pool(min(nproc, nsh)) as pool, cf.ThreadPoolExecutor(max_workers=njvm) as ex:
-        futs = []
-        for batch, meta in pool.imap_unordered(_shard, shards):
-            futs.append((ex.submit(ctx.validate, batch, 'PrecTrace', None, 3600, '3g'), batch, meta))
-        for fut, batch, meta in futs:
-            out.append((fut.result(), batch, meta))
-    return out
+def _run_puts(ctx, cases, nproc=10):
+    nsh = max(1, min(nproc if ctx.quick else 6 * nproc, len(cases) // 200 or 1))
+    shards = [(k + 1, cases[k::nsh]) for k in range(nsh)]
+    with mp.get_context('spawn').Pool(min(nproc, nsh), maxtasksperchild=4) as pool:
+        for res in pool.imap_unordered(_shard, shards):
+            mine = shards[res['shard'] - 1][1]
+            for i in res['done']:
+                c = mine[i]
+                ctx.distinct.add((c[0], c[2], c[3], c[4], c[5], c[6]))
+            _collect(ctx, res)
 
 
-def _collect(ctx, results):
-    for verd, batch, meta in results:
-        for t in batch['traces']:
-            evs = meta[t['id']]
-            ctx.evals += len(evs)
-            for e in evs:
-                ctx.distinct.add((e['slot'], e['child'], e['tlay'], e['clay'], e['form'], e['api']))
-            for step, clause, klass in sorted(verd[t['id']]['bad']):
-                e = evs[step - 1]
-                if clause not in MINE:
-                    raise common.Machinery(f'unexpected clause {clause} for {klass}')
-                ctx.violation(clause, klass, {'driver': 'c09_put', 'case': [e[k] for k in ('slot', 'child', 'tlay', 'clay',
-                                                                                           'form', 'api')],
-                                              'src': e['src'], 'code': e['code'], 'post': e['post'], 'exc': e['exc']},
-                              detail=json.dumps({'post': e['post'], 'exc': e['exc']}))
-        for t in batch['traces'][:1]:
-            for e in meta[t['id']][:1]:
-                ctx.sample({k: e[k] for k in ('slot', 'child', 'tlay', 'clay', 'form', 'api', 'src', 'code', 'post')})
+def _collect(ctx, res):
+    if res['err']:
+        raise common.Machinery(res['err'])
+    st = res['st']
+    ctx.states += st.get('distinct', 0)
+    ctx.transitions += st.get('generated', 0)
+    ctx.traces += res['ntr']
+    ctx.evals += res['nev']
+    ctx.extra['put_events'] = ctx.extra.get('put_events', 0) + res['nev']
+    if st:
+        ctx.models.append({'module': 'PrecTrace', 'kind': 'trace-validation', 'traces': res['ntr'],
+                           'distinct': st.get('distinct'), 'wall_s': st['wall_s'], 'batch_bytes': st['batch_bytes']})
+    for c, n in res['seen'].items():
+        ctx.clause_counts[c] = ctx.clause_counts.get(c, 0) + n
+    for clause, klass, e in res['bad']:
+        if clause not in MINE:
+            raise common.Machinery(f'unexpected clause {clause} for {klass}')
+        ctx.violation(clause, klass, {'driver': 'c09_put', 'case': [e[k] for k in ('slot', 'child', 'tlay', 'clay', 'form',
+                                                                                   'api')],
+                                      'src': e['src'], 'code': e['code'], 'post': e['post'], 'exc': e['exc']},
+                      detail=json.dumps({'post': e['post'], 'exc': e['exc']}))
+    if res['sample']:
+        ctx.sample(res['sample'])
 
 
 def run(ctx):
@@ -171,8 +198,7 @@ def run(ctx):
     ctx.extra['valid_rows'] = sum(1 for r in rows if r['valid'])
     ctx.extra['rows_needing_pars'] = sum(1 for r in rows if r['needs'])
     cases = _cases(ctx, rows)
-    results = _run_puts(ctx, cases)
-    _collect(ctx, results)
+    _run_puts(ctx, cases)
     gram.result()
     join_model()
     ctx.require_clauses(list(GRAM[:3]) + ['Gram.ml', 'Carried', 'Regroup.parse', 'Regroup.at', 'Regroup.rest',
@@ -188,13 +214,11 @@ def replay(ctx, path):
     rows, join_model = _table(ctx)
     join_model()
     cls = next(r['cls'] for r in rows if r['slot'] == slot)
-    tab = Tables()
-    ev = drv.put_event(tab, slot, cls, child, tlay, clay, form, api)
-    batch = dict(tab.dump(), traces=[{'id': 1, 'steps': [{k: ev[k] for k in TLC_FIELDS}]}])
-    verd = ctx.validate(batch, module='PrecTrace')
-    print('source :', repr(ev['src']))
-    print('code   :', repr(ev['code']), f'({form}, {api})')
-    print('result :', repr(ev['post']), ev['exc'])
-    print('verdict:', sorted(verd[1]['bad']), 'seen', verd[1]['seen'])
-    _collect(ctx, [(verd, batch, {1: [ev]})])
+    res = _shard((1, [(slot, cls, child, tlay, clay, form, api)]))
+    for clause, klass, e in res['bad'] or [(None, None, res['sample'])]:
+        print('source :', repr(e['src']))
+        print('code   :', repr(e['code']), f'({form}, {api})')
+        print('result :', repr(e['post']), e.get('exc', ''))
+        print('verdict:', clause, klass)
+    _collect(ctx, res)
     return ctx.finish()
